@@ -30,7 +30,8 @@
 (*   type contexts: "top"; "inner" (target of & and of a view: no slice,   *)
 (*   no view); "elem" (array element: no slice, view or endless array)     *)
 (*   statement contexts: "seq"; "then" (no if: an else would bind to it,   *)
-(*   no label, no declaration); "else" (may be an if: else-if chain)       *)
+(*   no label, no declaration, no `&x = ..`: the & would continue the      *)
+(*   condition); "else" (may be an if: else-if chain)                      *)
 (*                                                                         *)
 (* Mode = "mc": alphabets and bounds come from the CONSTANTS.              *)
 (* Mode = "trace": the node to be produced next is dictated by `cur`       *)
@@ -220,7 +221,9 @@ P_Var == /\ On("Var") /\ StAt({"seq"})
                           \o (IF a.hase THEN <<TP("="), E(0, FALSE)>> ELSE <<>>) \o <<TP(";")>>)
 P_Set == /\ On("Set") /\ StAt(AnySt)
          /\ \E a \in Cand("set", [k : {"set"}, addr : SetAddrs, base : VarNames, nsteps : 0..MaxSteps]) :
-              Step(a, RefT(a, FALSE) \o <<TP("="), E(0, FALSE), TP(";")>>)
+              \* directly after a condition `&x = ..` would read as the bitwise operator:  if a == b &x = 1;
+              /\ Top.ctx = "then" => a.addr = 0
+              /\ Step(a, RefT(a, FALSE) \o <<TP("="), E(0, FALSE), TP(";")>>)
 P_Call == /\ On("Call") /\ StAt(AnySt)
           /\ \E a \in Cand("call", [k : {"call"}, f : FnNames, na : 0..MaxArgs, builtin : {FALSE}]) :
              \E tc \in TCs(a.na) :
